@@ -164,6 +164,16 @@ class VUninit:
 UNINIT = VUninit()
 
 
+def zsum(terms):
+    """z3.Sum that never produces a unary (+ x), which cvc5 rejects"""
+    terms = list(terms)
+    if not terms:
+        return z3.IntVal(0)
+    if len(terms) == 1:
+        return terms[0]
+    return z3.Sum(terms)
+
+
 def contains_ref(v, depth=0):
     if isinstance(v, VRef):
         return True
@@ -507,7 +517,7 @@ class Encoder:
         need = max(uhi.bit_length(), 1)
         need = min(need, bits)
         ps = [self.fresh("p", "Bool") for _ in range(need)]
-        self.add_def(ps, ut == z3.Sum([z3.If(p, z3.IntVal(1 << i), z3.IntVal(0)) for i, p in enumerate(ps)]))
+        self.add_def(ps, ut == zsum([z3.If(p, z3.IntVal(1 << i), z3.IntVal(0)) for i, p in enumerate(ps)]))
         self.stats["bitblasts"] += 1
         out = list(ps) + [False] * (bits - need)
         return out[:nb]
@@ -523,7 +533,7 @@ class Encoder:
             else:
                 terms.append(z3.If(b, z3.IntVal(1 << i), z3.IntVal(0)))
         hi = const + sum(1 << i for i, b in enumerate(bs) if b is not True and b is not False)
-        t = z3.IntVal(const) if not terms else z3.Sum(terms + [z3.IntVal(const)]) if const else (z3.Sum(terms) if len(terms) > 1 else terms[0])
+        t = z3.IntVal(const) if not terms else zsum(terms + [z3.IntVal(const)]) if const else zsum(terms)
         return self.from_unsigned(t, const, hi, ty)
 
     def bitop(self, op, a, b):
@@ -1458,7 +1468,7 @@ class Encoder:
             bits, _ = INT_TYPES[a[0].ty]
             bs = self.bits_of(a[0])
             if name == "ctpop":
-                t = z3.Sum([z3.If(b, 1, 0) if not isinstance(b, bool) else z3.IntVal(int(b)) for b in bs])
+                t = zsum([z3.If(b, 1, 0) if not isinstance(b, bool) else z3.IntVal(int(b)) for b in bs])
                 return VInt(self.name_int(t, "pop"), "u32", 0, bits)
             order = list(reversed(range(bits))) if name.startswith("ctlz") else list(range(bits))
             t = z3.IntVal(bits)
